@@ -384,7 +384,8 @@ def write_container(path, world, reads, fmt, order_key=None, shuffle=None, extra
 
     cname = world["contig"]["name"]
     clen = len(world["contig"]["seq"])
-    sq = [{"SN": cname, "LN": clen}, {"SN": "other", "LN": clen}]
+    # (the second contig's name ends with the gene's contig name, as 12 / 22 do for 2: only the exact name counts)
+    sq = [{"SN": cname, "LN": clen}, {"SN": "un_" + cname, "LN": clen}]
     header = pysam.AlignmentHeader.from_dict({"HD": {"VN": "1.6"}, "SQ": sq})
     recs = list(reads) + list(extra or [])
     if shuffle is not None:
